@@ -11,10 +11,12 @@ from . import mir
 
 
 class Atom:
-    def __init__(self, name, pred, domain):
+    def __init__(self, name, pred, domain, norm=None):
+        """norm(term, value) -> value in `domain`: lets one atom be read off differently spelled conditions"""
         self.name = name
         self.pred = pred
         self.domain = list(domain)
+        self.norm = norm
 
 
 class Context:
@@ -67,6 +69,8 @@ class Table:
                     unknown.append(term)
                     continue
                 vs = _vals(val)
+                if a.norm is not None:
+                    vs = {a.norm(term, x) for x in vs}
                 if a.name in assign:
                     vs = assign[a.name] & vs
                     if not vs:
@@ -105,7 +109,12 @@ class Table:
             n += 1
             outs = self.lookup(v)
             distinct = {o for o, _ in outs}
-            if len(distinct) == 1 and next(iter(distinct)) == exp:
+            if isinstance(exp, (set, frozenset)):
+                # several outcomes are as good as each other in this situation
+                if distinct and distinct <= set(exp):
+                    continue
+                exp = " | ".join(sorted(exp))
+            elif len(distinct) == 1 and next(iter(distinct)) == exp:
                 continue
             bad += 1
             if len(examples) < 6:
